@@ -148,6 +148,7 @@ theorem evRun_sem (h h' : HSt) (evs : List Ev) (hr : evRun h evs = .ok h') :
         congr 1
         rw [← pend_flush h]
         simp [pend, buf_flush]
+    | other => simp [evStep, stackStep] at hr
 
 
 /-- the stacks alone -/
@@ -184,6 +185,7 @@ theorem evRun_stkRun (h h' : HSt) (evs : List Ev) (hr : evRun h evs = .ok h') :
         simp only [hs] at hr
         rw [stk_flush] at hs
         simpa [stkRun, hs] using ih _ hr
+    | other => simp [evStep, stackStep] at hr
 
 theorem stkRun_append (s s2 : Stk) (a b : List Ev) (h : stkRun s (a ++ b) = .ok s2) :
     ∃ s1, stkRun s a = .ok s1 ∧ stkRun s1 b = .ok s2 := by
@@ -222,6 +224,7 @@ theorem semCells_append (s s1 : Stk) (a r : List Ev) (h : stkRun s a = .ok s1) :
         simp [semCells, ih _ h]
       | elemOpen name attrs => simp [semCells, hs, ih _ h]
       | elemClose name => simp [semCells, hs, ih _ h]
+      | other => simp [stackStep] at hs
 
 /-- **Walk level.**  Text events spliced into an event stream contribute exactly their own
     cells, in the style of the stacks at that point, and change nothing before or after. -/
@@ -335,6 +338,7 @@ theorem semCells_text (s s' : Stk) (evs : List Ev) (h : stkRun s evs = .ok s') :
         simp [semCells, textOf, ih _ h]
       | elemOpen name attrs => simp [semCells, textOf, hs, ih _ h]
       | elemClose name => simp [semCells, textOf, hs, ih _ h]
+      | other => simp [stackStep] at hs
 
 /-- **HTML markup → fragments → text keeps the character data, in order**: the concatenated text
     of `HTML(value)` is exactly the character data of the document (entities decoded, line ends
@@ -417,43 +421,58 @@ def escVals (esc : Text → Text) : List Seg → List Seg
   | .lit t :: r => .lit t :: escVals esc r
   | .val v :: r => .val (esc v) :: escVals esc r
 
-theorem fillFormat_esc (esc : Text → Text) (args : List Text) (st : Option (Option Nat))
-    (items : List Item) :
-    fillFormat esc args st items = (fillFormat id args st items).map (escVals esc) := by
+theorem renderHole_esc (esc : Text → Text) (pr : Char → Bool) (args : List Val)
+    (kw : List (Text × Val)) (st : Option (Option Nat)) (h : Hole) :
+    renderHole esc pr args kw st h =
+      (renderHole id pr args kw st h).map fun p => (esc p.1, p.2) := by
+  unfold renderHole
+  cases selectArg h.arg st with
+  | error e => simp [Except.map]
+  | ok p =>
+    obtain ⟨key, st'⟩ := p
+    simp only
+    cases getValue args kw key with
+    | error e => simp [Except.map]
+    | ok v =>
+      simp only
+      cases fmtVal (convert pr v h.conv) h <;> simp [Except.map]
+
+theorem fillFormat_esc (esc : Text → Text) (pr : Char → Bool) (args : List Val)
+    (kw : List (Text × Val)) (st : Option (Option Nat)) (items : List Item) :
+    fillFormat esc pr args kw st items = (fillFormat id pr args kw st items).map (escVals esc) := by
   induction items generalizing st with
   | nil => simp [fillFormat, Except.map, escVals]
   | cons it rest ih =>
     cases it with
     | lit t =>
       simp only [fillFormat, ih]
-      cases fillFormat id args st rest <;> simp [Except.map, escVals]
-    | hole idx spec =>
+      cases fillFormat id pr args kw st rest <;> simp [Except.map, escVals]
+    | hole h =>
       simp only [fillFormat]
-      cases selectArg idx st with
+      rw [renderHole_esc]
+      cases renderHole id pr args kw st h with
       | error e => simp [Except.map]
       | ok p =>
-        obtain ⟨i, st'⟩ := p
-        simp only
-        cases args[i]? with
-        | none => simp [Except.map]
-        | some v =>
-          simp only [ih]
-          cases fillFormat id args st' rest <;> simp [Except.map, escVals]
+        obtain ⟨t, st'⟩ := p
+        simp only [Except.map, ih]
+        cases fillFormat id pr args kw st' rest <;> simp [Except.map, escVals]
 
 theorem flat_escVals (segs : List Seg) : flat (escVals htmlEscape segs) = hflat segs := by
   induction segs with
   | nil => rfl
   | cons sg r ih => cases sg <;> simp [escVals, flat, hflat, ih]
 
-/-- **`HTML(tmpl).format(*args)`**, any number of holes: for every template of the modelled
-    grammar whose holes are all in content position and for all argument strings, the document
+/-- **`HTML(tmpl).format(*args, **kwargs)`**, any number of holes: for every template of the modelled
+    grammar (automatic, numbered and keyword fields, conversions, format specs) whose holes are all
+    in content position and for all argument values, the document
     handed to the XML parser is tokenized as the template's own events with, at each hole, one
     text event per character of the (formatted) value. -/
-theorem htmlFormat_inert (tmpl : Text) (args : List Text) (items : List Item) (raw : List Seg)
+theorem htmlFormat_inert (pr : Char → Bool) (tmpl : Text) (args : List Val)
+    (kw : List (Text × Val)) (items : List Item) (raw : List Seg)
     (hscan : scanFormat tmpl = some (.ok items))
-    (hfill : fillFormat id args none items = .ok raw)
+    (hfill : fillFormat id pr args kw none items = .ok raw)
     (hg : HHolesOK (.content false 0) raw) :
-    vformat htmlEscape tmpl args = some (.ok (hflat raw)) ∧
+    vformat htmlEscape pr tmpl args kw = some (.ok (hflat raw)) ∧
     xrun (.content false 0) (hflat raw) = xsplice (.content false 0) raw := by
   refine ⟨?_, xrun_template_inert _ _ hg⟩
   simp [vformat, hscan, renderFormat_eq_fill, fillFormat_esc htmlEscape, hfill, Except.map,
@@ -477,17 +496,25 @@ instance decHHolesOK : (m : XMode) → (segs : List Seg) → Decidable (HHolesOK
   | .clt, .val _ :: _ => isFalse (by simp [HHolesOK])
   | .cname _, .val _ :: _ => isFalse (by simp [HHolesOK])
   | .cnameSp _, .val _ :: _ => isFalse (by simp [HHolesOK])
+  | .bang _, .val _ :: _ => isFalse (by simp [HHolesOK])
+  | .comment _, .val _ :: _ => isFalse (by simp [HHolesOK])
+  | .cdata _ _, .val _ :: _ => isFalse (by simp [HHolesOK])
+  | .piStart, .val _ :: _ => isFalse (by simp [HHolesOK])
+  | .piName _, .val _ :: _ => isFalse (by simp [HHolesOK])
+  | .piData _, .val _ :: _ => isFalse (by simp [HHolesOK])
+  | .piEnd, .val _ :: _ => isFalse (by simp [HHolesOK])
   | .fail, .val _ :: _ => isFalse (by simp [HHolesOK])
   | .bad, .val _ :: _ => isFalse (by simp [HHolesOK])
 
 /-- `<b>{}</b><u>{:>3}</u>` with a markup value and a quote -/
 example : ∃ items raw,
     scanFormat "<b>{}</b><u>{:>3}</u>".toList = some (.ok items) ∧
-    fillFormat id ["<i>".toList, "'".toList] none items = .ok raw ∧
+    fillFormat id exPr [{ s := "<i>".toList }, { s := "'".toList }] [] none items = .ok raw ∧
     HHolesOK (.content false 0) raw ∧
     html (hflat raw) = .ok [⟨"class:b".toList, "<i>".toList, none⟩,
                             ⟨"class:u".toList, "  '".toList, none⟩] :=
-  ⟨[.lit "<b>".toList, .hole none {}, .lit "</b><u>".toList,
-    .hole none { align := .right, width := 3 }, .lit "</u>".toList], _, rfl, rfl, by decide, rfl⟩
+  ⟨[.lit "<b>".toList, .hole {}, .lit "</b><u>".toList,
+    .hole { spec := { align := .right, width := 3 }, specEmpty := false }, .lit "</u>".toList],
+   _, rfl, rfl, by decide, rfl⟩
 
 end Ptk.C18
